@@ -337,8 +337,9 @@ func (srv *Server) ListenAndServe() error {
 		// run's business, not this one's (see ShutdownContext).
 		srv.Listener, srv.PacketConn = l, nil
 		srv.started = true
+		run := srv.shutdown
 		unlock()
-		return srv.serveTCP(l)
+		return srv.serveTCP(l, run)
 	case "tcp-tls", "tcp4-tls", "tcp6-tls":
 		if srv.TLSConfig == nil || (len(srv.TLSConfig.Certificates) == 0 && srv.TLSConfig.GetCertificate == nil) {
 			return errors.New("neither Certificates nor GetCertificate set in config")
@@ -351,8 +352,9 @@ func (srv *Server) ListenAndServe() error {
 		l = tls.NewListener(l, srv.TLSConfig)
 		srv.Listener, srv.PacketConn = l, nil
 		srv.started = true
+		run := srv.shutdown
 		unlock()
-		return srv.serveTCP(l)
+		return srv.serveTCP(l, run)
 	case "udp", "udp4", "udp6":
 		l, err := listenUDP(srv.Net, addr, srv.ReusePort, srv.ReuseAddr)
 		if err != nil {
@@ -365,8 +367,9 @@ func (srv *Server) ListenAndServe() error {
 		}
 		srv.PacketConn, srv.Listener = l, nil
 		srv.started = true
+		run := srv.shutdown
 		unlock()
-		return srv.serveUDP(u)
+		return srv.serveUDP(u, run)
 	}
 	return &Error{err: "bad network"}
 }
@@ -393,13 +396,15 @@ func (srv *Server) ActivateAndServe() error {
 			}
 		}
 		srv.started = true
+		l, run := srv.PacketConn, srv.shutdown
 		unlock()
-		return srv.serveUDP(srv.PacketConn)
+		return srv.serveUDP(l, run)
 	}
 	if srv.Listener != nil {
 		srv.started = true
+		l, run := srv.Listener, srv.shutdown
 		unlock()
-		return srv.serveTCP(srv.Listener)
+		return srv.serveTCP(l, run)
 	}
 	return &Error{err: "bad listeners"}
 }
@@ -472,14 +477,13 @@ func (srv *Server) getReadTimeout() time.Duration {
 	return dnsTimeout
 }
 
-// serveTCP starts a TCP listener for the server.
-func (srv *Server) serveTCP(l net.Listener) error {
+// serveTCP starts a TCP listener for the server. Each run signals on its own
+// channel, which also identifies it: the server may have been started again
+// (init replaces srv.shutdown) while this run is still draining, or even
+// before it got here. The start path therefore hands over the channel it took
+// while it still held the lock.
+func (srv *Server) serveTCP(l net.Listener, shutdown chan struct{}) error {
 	defer l.Close()
-
-	// Each run signals on its own channel, which also identifies it: the
-	// server may have been started again (init replaces srv.shutdown) while
-	// this run is still draining.
-	shutdown := srv.shutdown
 
 	if srv.NotifyStartedFunc != nil {
 		srv.NotifyStartedFunc()
@@ -513,12 +517,10 @@ func (srv *Server) serveTCP(l net.Listener) error {
 	return nil
 }
 
-// serveUDP starts a UDP listener for the server.
-func (srv *Server) serveUDP(l net.PacketConn) error {
+// serveUDP starts a UDP listener for the server. Each run signals on its own
+// channel, see serveTCP.
+func (srv *Server) serveUDP(l net.PacketConn, shutdown chan struct{}) error {
 	defer l.Close()
-
-	// Each run signals on its own channel, see serveTCP.
-	shutdown := srv.shutdown
 
 	// However this run ends, a Shutdown that found the server started and
 	// is waiting for it is told so: the server counts as started from the
